@@ -1,6 +1,6 @@
 #!/usr/bin/env python3
 """Regenerates lean/lakefile.toml (one lean_exe per AGV/Drive/Cnn.lean) and lean/AGV.lean
-(imports every Props/Audit-free module so `lake build` checks everything).  Content is a pure
+(imports the shared Util/Core modules; property modules are built per property).  Content is a pure
 function of the files present; rewritten only when it changes."""
 import os
 ROOT = os.path.dirname(os.path.dirname(os.path.abspath(__file__)))
@@ -19,7 +19,7 @@ for d in drives:
 write_if_changed(os.path.join(LEAN, "lakefile.toml"), lk)
 
 mods = []
-for sub in ["Util", "Core", "Gen", "Model", "Spec", "Lemmas", "Props"]:
+for sub in ["Util", "Core"]:
     d = os.path.join(LEAN, "AGV", sub)
     if os.path.isdir(d):
         for f in sorted(os.listdir(d)):
